@@ -531,6 +531,7 @@ static void cell_shared(const struct cell *c)
     cstl_shared_ptr_init(o); cstl_shared_ptr_init(other); cstl_shared_ptr_init(co); cstl_weak_ptr_init(wk);
     if (c->state >= 1) {
         cstl_shared_ptr_alloc(o, 32, c->state == 3 ? NULL : clr_cb); mem = cstl_shared_ptr_get(o);
+        if (mem != NULL) memset(mem, 0x11, 32);     /* the client's content: the monitor reads it back later (and must not read uninitialised memory itself) */
         if (c->state == 3) VRT_COUNT("side-effects.strays-without-clear-callback"); else VRT_COUNT("side-effects.strays-with-clear-callback");
     }
     if (c->state == 2) cstl_shared_ptr_share(o, co);
@@ -847,6 +848,9 @@ PAIR_FN pair_shared(const struct cell *c)
         if (clr) VRT_COUNT("side-effects.strays-with-clear-callback"); else VRT_COUNT("side-effects.strays-without-clear-callback");
     }
     ma = cstl_shared_ptr_get(&o->a); mb = cstl_shared_ptr_get(&o->b); mB = hand ? cstl_shared_ptr_get(B) : NULL;
+    if (ma != NULL) memset(ma, 0x11, 8);
+    if (mb != NULL) memset(mb, 0x11, 8);
+    if (mB != NULL) memset(mB, 0x11, 8);
     if (hand) HAND_EXCHANGE(cstl_shared_ptr_t, A, B, c->way); else DUP(struct strio, x, o, c->way);
     vrt_state(sstate[c->state]);
     VRT_OP2("shared_ptr.pair-probe", "probe %ld placement %ld", c->probe, c->pl);
